@@ -11,11 +11,11 @@ from .. import core, gen_abbr, hostile, outparse, probes
 
 ID = 'C13'
 RULE = ('cases = (abbreviation with and without explicit ${n:ph} fields, syntax, newline string, indent, baseIndent, callback behaviour); markup syntaxes '
-        'html/xml/jsx/vue/pug/haml/slim and stylesheet syntaxes; newline in \\n, \\r\\n, \\r; callbacks: identity, letter-doubling, marker-wrapping (never '
+        'html/xml/jsx/vue/pug/haml/slim and stylesheet syntaxes; newline in \\n, \\r\\n, \\r; callbacks: identity, letter-doubling, marker-wrapping, bare placeholder, selection (line breaks the placeholder never had), text-lines (more lines than given) (never '
         'touching blank-only pushes); EVERY callback invocation of every run is checked. Numbering is read back per attribute value / element content for '
         'the HTML-family syntaxes. Non-trivial = at least 3 callback events and one tabstop; distinct by (abbreviation, syntax, options)')
 ASSUMPTIONS = ['line = number of line breaks (CRLF, CR or LF) in the final result before the offset, column = distance from the end of the last one; the callbacks of the harness '
-               'return what they are given (or a same-line rewrite of it), so line breaks enter only through the configured newline and through multi-line placeholders',
+               'return what they are given or a rewrite of it; line breaks enter through the configured newline (one line break per newline string), through multi-line placeholders and through what the selection / text-lines callbacks return',
                'text with explicit fields is only put on leaves (a value with fields AND children is split around the children: two values)',
                'the 1,2,3... clause is checked when the abbreviation has no explicit field and no snippet name whose definition carries fields']
 FLOORS = {'quick': {'grouped-fields': 5000, 'nothing-to-wrap': 4000, 'run': 22000, 'callback-event': 1500000, 'stylesheet-run': 3500}, 'thorough': {'grouped-fields': 90000, 'nothing-to-wrap': 75000, 'run': 450000, 'callback-event': 12000000, 'stylesheet-run': 60000}}
@@ -76,6 +76,9 @@ class Run:
         r = '⟦%d:%s⟧' % (index, placeholder)
         if self.mode == 'bare':
             r = placeholder         # what a plain-text consumer does: the placeholder itself (may be empty, may END with a line break)
+        elif self.mode == 'selection':
+            # a plug-in that puts the editor's selection into the empty tabstops: what it returns has line breaks the placeholder never had
+            r = placeholder or ('first line\nsecond' if index % 2 else 'one\r\ntwo\rthree')
         self.ev.append(('field', k.get('offset'), k.get('line'), k.get('column'), r))
         return r
 
@@ -86,6 +89,9 @@ class Run:
                 r = ''.join(ch * 2 if ch.isalpha() else ch for ch in t)
             elif self.mode == 'wrap':
                 r = '«' + t + '»'
+            elif self.mode == 'text-lines' and len(t) % 3 == 0:
+                # a text filter that answers with more lines than it was given (a wrapped long line, an expanded entity list)
+                r = t + ('\n' if len(t) % 2 else '\r\n') + '+' + t[:3]
         self.ev.append(('text', k.get('offset'), k.get('line'), k.get('column'), r))
         return r
 
@@ -308,7 +314,7 @@ def run_shard(desc, ctx):
                 opts['comment.enabled'] = True
             flags = {'explicit': explicit, 'snippet_names': snippet_names,
                      'numbering': syntax in ('html', 'xml', 'jsx', 'vue')}
-            mode = rng.choice(['id', 'double', 'wrap', 'bare'])
+            mode = rng.choice(['id', 'double', 'wrap', 'bare', 'selection', 'text-lines'])
             if flags['numbering'] and mode != 'id':
                 mode = 'id' if rng.random() < 0.7 else mode
             if mode != 'id':
